@@ -247,7 +247,9 @@ func verifPump(op *verifOp, res *verifOut) {
 	results := make(chan *vegeta.Result)
 	sig := make(chan os.Signal, 1)
 	failNext := false
+	handled := make(chan struct{}, 1) // the encoder has dealt with the result it was given
 	enc := vegeta.Encoder(func(r *vegeta.Result) error {
+		defer func() { handled <- struct{}{} }()
 		if failNext {
 			return fmt.Errorf("encode failed")
 		}
@@ -276,6 +278,7 @@ steps:
 			select {
 			case results <- &vegeta.Result{Seq: seq}:
 				seq++
+				<-handled // steps are sequential: the next one starts after this result was encoded (or failed to)
 			case err := <-done:
 				res.Err, res.Returned, finished = verifErr(err), true, true
 				break steps
